@@ -297,7 +297,7 @@ class SimOps:
                 if ref_count[i3_idx] <= 0: free_set.add(self.c_locs[i3_idx])
                 o_idx = op[1]
                 if o_idx == self.tmp_idx: continue  # unconnected output: stays in the scratch slot allocated above
-                cap = max(c_caps_min, c_caps[o_idx])
+                cap = int(max(c_caps_min, c_caps[o_idx]))  # plain int: a narrow numpy scalar would make the allocator's offsets wrap
                 self.c_locs[o_idx], self.c_caps[o_idx] = h.alloc(cap), cap
             if c_reuse:
                 for loc in free_set:
